@@ -350,3 +350,77 @@ variant("ref-exit-else", "C02", SOLVER, """            if not csp_solver.solve()
                 break
 
             for i in range(n_var):""")
+
+# ---- C20 ---------------------------------------------------------------------------------------
+CONF = "cspuz/configuration.py"
+mutant("cfg-detect-z3-first", "C20", CONF, """    try:
+        import cspuz_core  # type: ignore  # noqa
+
+        return "cspuz_core"
+    except ImportError:
+        pass
+""", """    try:
+        import z3  # type: ignore  # noqa
+
+        return "z3"
+    except ImportError:
+        pass
+
+    try:
+        import cspuz_core  # type: ignore  # noqa
+
+        return "cspuz_core"
+    except ImportError:
+        pass
+""", "CFG-3")
+mutant("cfg-detect-wrong-name", "C20", CONF, """        import pycsugar  # type: ignore  # noqa
+
+        return "csugar\"""", """        import pycsugar  # type: ignore  # noqa
+
+        return "sugar_extended\"""", "CFG-3")
+mutant("cfg-strtobool-lenient", "C20", CONF, """    else:
+        raise ValueError(f"Invalid value for boolean: {s}")""", """    else:
+        return False""", "CFG-6")
+mutant("cfg-strtobool-case", "C20", CONF, "    s = s.lower()\n", "", "CFG-6")
+mutant("cfg-prim-default-sugar", "C20", CONF, 'if self.default_backend in ("csugar", "enigma_csp", "cspuz_core"):', 'if self.default_backend in ("csugar", "enigma_csp", "cspuz_core", "sugar_extended"):', "CFG-5")
+mutant("cfg-div-default-csugar", "C20", CONF, 'if self.default_backend in ("enigma_csp", "cspuz_core"):', 'if self.default_backend in ("csugar", "enigma_csp", "cspuz_core"):', "CFG-5")
+mutant("cfg-env-ignored", "C20", CONF, """        if default_backend == "auto":
+            self.default_backend = _detect_backend()
+        else:
+            self.default_backend = default_backend""", """        if default_backend != "z3":
+            self.default_backend = _detect_backend()
+        else:
+            self.default_backend = default_backend""", "CFG-5")
+mutant("cfg-div-env-name", "C20", CONF, """                "CSPUZ_USE_GRAPH_DIVISION_PRIMITIVE",""", """                "CSPUZ_USE_GRAPH_PRIMITIVE",""", "CFG-5")
+mutant("cfg-solve-ignores-arg", "C20", SOLVER, """            warnings.warn("no answer key is given")
+        backend_type = _get_backend(backend)""", """            warnings.warn("no answer key is given")
+        backend_type = _get_backend(None)""", "CFG-1")
+mutant("cfg-name-table-swap", "C20", SOLVER, """    elif backend_name == "csugar":
+        return backend.sugar_like.CSugarBackend""", """    elif backend_name == "csugar":
+        return backend.sugar_like.CspuzCoreBackend""", "CFG-1")
+mutant("cfg-unknown-name-default", "C20", SOLVER, """    else:
+        raise ValueError("invalid backend {}".format(backend_name))""", """    else:
+        return backend.sugar_like.SugarBackend""", "CFG-1")
+mutant("cfg-acyclic-native", "C20", GRAPH, "    if use_graph_primitive and not acyclic:", "    if use_graph_primitive:", "CFG-4")
+mutant("cfg-flag-import-time", "C20", GRAPH, ["""    if use_graph_primitive is None:
+        use_graph_primitive = config.use_graph_primitive
+    if use_graph_primitive and not acyclic:""", "from .solver import Solver\n\n\nclass Graph(object):"], ["""    if use_graph_primitive is None:
+        use_graph_primitive = _DEFAULT_PRIMITIVE
+    if use_graph_primitive and not acyclic:""", "from .solver import Solver\n\n_DEFAULT_PRIMITIVE = config.use_graph_primitive\n\n\nclass Graph(object):"], "CFG-4", "config read once at import into a module constant")
+mutant("cfg-arg-ignored-cycle", "C20", GRAPH, """        is_passed_flat = _active_edges_single_cycle(
+            solver, edges, graph, use_graph_primitive=use_graph_primitive
+        )
+        return is_passed_flat.reshape((is_active_edge.height + 1, is_active_edge.width + 1))""", """        is_passed_flat = _active_edges_single_cycle(
+            solver, edges, graph
+        )
+        return is_passed_flat.reshape((is_active_edge.height + 1, is_active_edge.width + 1))""", "CFG-4")
+mutant("cfg-borders-wrong-flag", "C20", GRAPH, "        use_graph_primitive = config.use_graph_division_primitive", "        use_graph_primitive = config.use_graph_primitive", "CFG-4")
+mutant("cfg-crossable-forced-off", "C20", GRAPH, "active_vertices_connected(solver, gv, graph=g, use_graph_primitive=use_graph_primitive)", "active_vertices_connected(solver, gv, graph=g, use_graph_primitive=False)", "CFG-4")
+variant("cfg-strtobool-set", "C20", CONF, '    if s in ("true", "1"):', '    if s in {"1", "true"}:')
+variant("cfg-dict-dispatch", "C20", SOLVER, """    if backend_name == "sugar":
+        return backend.sugar_like.SugarBackend
+    elif backend_name == "sugar_extended":""", """    if backend_name == "sugar_extended":
+        return backend.sugar_like.SugarExtendedBackend
+    elif backend_name == "sugar":
+        return backend.sugar_like.SugarBackend
+    elif backend_name == "sugar_extended":""")
